@@ -32,7 +32,7 @@
    alphabet [small_alphabet] (the letter a, space, line feed, both parentheses, slash,
    double quote, comma) — 37449 inputs evaluated by the kernel. *)
 From Verif.Base Require Import Bytes.
-From Verif.Modfile Require Import Syntax Lex Parse Print ProofsRound.
+From Verif.Modfile Require Import Syntax Lex Parse Print ProofsLexNoLF ProofsRound.
 
 Theorem C02_format_round_trip_partial : forall data s,
   (length data <= 5)%nat -> Forall (fun c => In c small_alphabet) data ->
@@ -41,7 +41,15 @@ Theorem C02_format_round_trip_partial : forall data s,
 Proof. exact format_round_trip_small. Qed.
 Print Assumptions C02_format_round_trip_partial.
 
-(* non-vacuity: a five-byte block with a line is in the domain and is accepted *)
+(* lex_tokens_no_lf: no identifier, string or punctuation token delivered by the lexer
+   contains a line feed (so every Line of a parsed tree starts and ends on one line and the
+   comment assignment never skips it; this is what failed before /repo a2ca708) *)
+Theorem C02_lex_tokens_no_lf : forall data,
+  Forall (fun t => line_token_kind (t_kind t) = true -> ~ In 10 (t_text t)) (fst (lex data)).
+Proof. exact lex_tokens_no_lf. Qed.
+Print Assumptions C02_lex_tokens_no_lf.
+
+(* non-vacuity: a five-byte (empty) block is in the domain and is accepted *)
 Example C02_round_trip_example :
-  exists s, parse [97; 40; 10; 97; 41] = POk s /\ format s = [97; 32; 40; 10; 9; 97; 41; 10].
-Proof. eexists. split; vm_compute; reflexivity. Qed.
+  exists s, parse [97; 40; 10; 41; 10] = POk s /\ format s = [97; 32; 40; 10; 41; 10].
+Proof. eexists. split; [vm_compute; reflexivity|vm_compute; reflexivity]. Qed.
